@@ -124,6 +124,7 @@ structure Checker where
   posts : List Contract := []
   paramNames : List String := []
   kwdefaults : List (String × Id) := []
+  posOnly : List String := []
 deriving Repr, Inhabited
 
 structure Call where
@@ -146,7 +147,7 @@ def raiseIfSome (v : Option Raised) : Res Unit :=
 
 /-- the checked path of the sync wrapper (lines 799-846) -/
 def checkedSync (ck : Checker) (o : Oracle) (call : Call) : Res Id := do
-  let kw := kwargsFromCall ck.paramNames ck.kwdefaults call.args call.kwargs
+  let kw := kwargsFromCall ck.paramNames ck.kwdefaults call.args call.kwargs ck.posOnly
   match assertResolvedKwargsValid (!ck.posts.isEmpty) kw with
   | some e => Res.raise e
   | none => do
@@ -235,7 +236,7 @@ def captureOldAsync (o : Oracle) (kw : Kwargs) (acc : List (String × Id)) :
       | .val v _ => captureOldAsync o kw (acc ++ [(s.name, v)]) ss
 
 def checkedAsync (ck : Checker) (o : Oracle) (call : Call) : Res Id := do
-  let kw := kwargsFromCall ck.paramNames ck.kwdefaults call.args call.kwargs
+  let kw := kwargsFromCall ck.paramNames ck.kwdefaults call.args call.kwargs ck.posOnly
   match assertResolvedKwargsValid (!ck.posts.isEmpty) kw with
   | some e => Res.raise e
   | none => do
